@@ -5,7 +5,7 @@
 From Coq Require Import Reals ZArith List Bool Arith Lia Lra Sorted.
 From Coquelicot Require Import Coquelicot.
 From NF Require Import Base.Ops Base.Rops Base.Result Gen.Utils Gen.SplineLinear Model.Utils Model.Vec Model.SplineRQ Model.SplineLinear
-  Proofs.VecR Proofs.SplineLQP.
+  Proofs.VecR Proofs.SplineLQP Proofs.UtilsR.
 Import ListNotations.
 Open Scope R_scope.
 
@@ -195,5 +195,174 @@ Section LinWhole.
     - intros a b Ha Hab Hb. unfold FL. rewrite (linear_forward a) by lra. rewrite (linear_forward b) by lra. cbv zeta.
       pose proof (xnorm_range a ltac:(lra)) as [A0 A1]. pose proof (xnorm_range b ltac:(lra)) as [B0 B1].
       assert (G (xnorm a) < G (xnorm b)) by (apply G_increasing; [lra | apply xnorm_increasing; exact Hab | lra]). nra.
+  Qed.
+
+  (* ---- the inverse direction: searchsorted on the cumulative table, then the bin's line solved for x ---- *)
+  Lemma cdf_list_eq : lin_cdf Rops u = 0 :: cumsum Rops pdf.
+  Proof.
+    unfold lin_cdf. cbn [o_zero o_ofZ Rops]. fold pdf. f_equal. apply set_last_same.
+    - rewrite last_nth, cumsum_length, pdf_length. rewrite cumsum_nth by (rewrite pdf_length; pose proof Kpos; lia).
+      replace (S (K - 1)) with K by (pose proof Kpos; lia). rewrite <- pdf_length, psum_all. apply pdf_sum.
+    - intro E. apply (f_equal (@length R)) in E. rewrite cumsum_length, pdf_length in E. simpl in E. pose proof Kpos. lia.
+  Qed.
+
+  Lemma cdf_list_length : length (lin_cdf Rops u) = S K.
+  Proof. rewrite cdf_list_eq. cbn [length]. rewrite cumsum_length, pdf_length. reflexivity. Qed.
+
+  Lemma cdf_list_nth k : (k <= K)%nat -> nth k (lin_cdf Rops u) 0 = psum pdf k.
+  Proof. intros Hk. exact (cdf_nth k Hk). Qed.
+
+  Lemma cdf_sorted : StronglySorted Rlt (lin_cdf Rops u).
+  Proof.
+    apply sorted_of_nth. intros i j Hij Hj. rewrite cdf_list_length in Hj. rewrite !cdf_list_nth by lia.
+    apply psum_lt; [apply pdf_pos | exact Hij | rewrite pdf_length; lia].
+  Qed.
+
+  Definition ynorm (y : R) : R := (y - b_bottom bx) / (b_top bx - b_bottom bx).
+
+  Lemma ynorm_range y : b_bottom bx <= y <= b_top bx -> 0 <= ynorm y <= 1.
+  Proof.
+    intros [A B]. unfold ynorm. split.
+    - apply Rmult_le_pos; [lra | left; apply Rinv_0_lt_compat; lra].
+    - apply (Rmult_le_reg_r (b_top bx - b_bottom bx)); [lra|]. unfold Rdiv. rewrite Rmult_assoc, Rinv_l by lra. lra.
+  Qed.
+
+  (* the normalised pre-image inside bin k *)
+  Definition Ginv (k : nat) (yn : R) : R := INR k / INR K + (yn - psum pdf k) / (INR K * nth k pdf 0).
+
+  Lemma Ginv_range k yn : (k < K)%nat -> psum pdf k <= yn <= psum pdf (S k) ->
+    INR k / INR K <= Ginv k yn <= INR (S k) / INR K /\ 0 <= Ginv k yn <= 1.
+  Proof.
+    intros Hk [A B]. pose proof Kpos as KP. assert (HK : 0 < INR K) by (apply lt_0_INR; exact KP).
+    pose proof (pdf_nth_pos k Hk) as P. rewrite psum_S in B by (rewrite pdf_length; exact Hk).
+    assert (HKp : 0 < INR K * nth k pdf 0) by (apply Rmult_lt_0_compat; assumption).
+    assert (Q0 : 0 <= (yn - psum pdf k) / (INR K * nth k pdf 0)).
+    { apply Rmult_le_pos; [lra | left; apply Rinv_0_lt_compat; exact HKp]. }
+    assert (Q1 : (yn - psum pdf k) / (INR K * nth k pdf 0) <= 1 / INR K).
+    { apply (Rmult_le_reg_r (INR K * nth k pdf 0)); [exact HKp|]. unfold Rdiv. rewrite Rmult_assoc, Rinv_l by lra.
+      replace (1 * / INR K * (INR K * nth k pdf 0)) with (nth k pdf 0) by (field; lra). lra. }
+    assert (E : INR (S k) / INR K = INR k / INR K + 1 / INR K) by (rewrite S_INR; field; lra).
+    unfold Ginv. split; [rewrite E; lra|].
+    assert (0 <= INR k / INR K) by (apply Rmult_le_pos; [apply pos_INR | left; apply Rinv_0_lt_compat; exact HK]).
+    assert (INR (S k) / INR K <= 1).
+    { apply (Rmult_le_reg_r (INR K)); [exact HK|]. unfold Rdiv. rewrite Rmult_assoc, Rinv_l by lra. rewrite Rmult_1_r, Rmult_1_l. apply le_INR. lia. }
+    rewrite E in H0. lra.
+  Qed.
+
+  Lemma lin_inv_outputs_eq k yn : (k < K)%nat -> psum pdf k <= yn <= psum pdf (S k) ->
+    lin_inv_outputs Rops yn (psum pdf k) (psum pdf (S k)) (lin_boundary Rops K k) (lin_boundary Rops K (S k)) = Ginv k yn /\
+    lin_inv_logabsdet Rops yn (psum pdf k) (psum pdf (S k)) (lin_boundary Rops K k) (lin_boundary Rops K (S k)) = - ln (INR K * nth k pdf 0).
+  Proof.
+    intros Hk Hy. pose proof Kpos as KP. assert (HK : 0 < INR K) by (apply lt_0_INR; exact KP).
+    pose proof (pdf_nth_pos k Hk) as P. destruct (Ginv_range k yn Hk Hy) as [_ Hr].
+    unfold lin_inv_outputs, lin_inv_logabsdet, lin_boundary. cbn [Rops o_div o_sub o_mul o_ofZ o_neg o_ln].
+    rewrite <- !INR_IZR_INZ. rewrite psum_S by (rewrite pdf_length; exact Hk). rewrite S_INR.
+    assert (Es : (psum pdf k + nth k pdf 0 - psum pdf k) / ((INR k + 1) / INR K - INR k / INR K) = INR K * nth k pdf 0) by (field; lra).
+    rewrite Es. split; [|reflexivity].
+    replace ((yn - (psum pdf k + nth k pdf 0 - INR K * nth k pdf 0 * ((INR k + 1) / INR K))) / (INR K * nth k pdf 0)) with (Ginv k yn)
+      by (unfold Ginv; field; lra).
+    change (IZR 0) with 0. change (IZR 1) with 1. apply clamp01_id. exact Hr.
+  Qed.
+
+  Theorem linear_inverse y : b_bottom bx <= y <= b_top bx ->
+    exists k, (k < K)%nat /\ psum pdf k <= ynorm y /\ (ynorm y < psum pdf (S k) \/ S k = K) /\ ynorm y <= psum pdf (S k) /\
+      linear_spline Rops true bx u y
+      = Ok (Ginv k (ynorm y) * (b_right bx - b_left bx) + b_left bx,
+            - ln (INR K * nth k pdf 0) + ln (b_right bx - b_left bx) - ln (b_top bx - b_bottom bx)).
+  Proof.
+    intros Hy. pose proof (ynorm_range y Hy) as Hn. pose proof Kpos as KP.
+    assert (H0 : nth 0 (lin_cdf Rops u) 0 = 0) by (rewrite cdf_list_nth by lia; apply psum_0).
+    assert (H1 : nth K (lin_cdf Rops u) 0 = 1) by (rewrite cdf_list_nth by lia; rewrite <- pdf_length, psum_all; apply pdf_sum).
+    destruct (searchsorted_spec (lin_cdf Rops u) (ynorm y) K cdf_list_length KP cdf_sorted) as [k [Ek [HkK [Hge Hlt]]]]; [rewrite H0, H1; exact Hn|].
+    rewrite cdf_list_nth in Hge by lia. rewrite cdf_list_nth in Hlt by lia.
+    exists k. split; [exact HkK|]. split; [exact Hge|]. split; [exact Hlt|].
+    assert (Hle : ynorm y <= psum pdf (S k)).
+    { destruct Hlt as [L|E]; [lra|]. rewrite E. rewrite <- pdf_length, psum_all, pdf_sum. lra. }
+    split; [exact Hle|].
+    unfold linear_spline. cbn [lin_bounds]. unfold lin_rejects. cbn [o_ltb Rops].
+    assert (R1 : Rltb y (b_bottom bx) = false) by (apply Rltb_false; lra).
+    assert (R2 : Rltb (b_top bx) y = false) by (apply Rltb_false; lra).
+    rewrite R1, R2. cbn [orb]. fold K.
+    unfold lin_inv_normalise_inputs. cbn [Rops o_div o_sub]. fold (ynorm y).
+    rewrite Ek, Nat2Z.id. assert (R5 : Nat.leb K k = false) by (apply Nat.leb_gt; exact HkK). rewrite R5.
+    rewrite (cdf_nth k) by lia. rewrite (cdf_nth (S k)) by lia.
+    destruct (lin_inv_outputs_eq k (ynorm y) HkK (conj Hge Hle)) as [E1 E2]. rewrite E1, E2.
+    unfold lin_inv_denormalise_outputs, lin_inv_denormalise_logabsdet. cbn [Rops o_add o_mul o_sub o_ln]. reflexivity.
+  Qed.
+
+  Definition FLlad (x : R) : R := match linear_spline Rops false bx u x with Ok (_, l) => l | _ => 0 end.
+
+  (* forward (inverse y) = y with the negated log-abs-det: every value of [bottom, top] is attained at the point the inverse returns *)
+  Theorem linear_forward_of_inverse y : b_bottom bx <= y <= b_top bx ->
+    exists x l, linear_spline Rops true bx u y = Ok (x, l) /\ (b_left bx <= x <= b_right bx) /\ FL x = y /\ l = - FLlad x.
+  Proof.
+    intros Hy. destruct (linear_inverse y Hy) as [k [Hk [Hge [Hlt [Hle E]]]]].
+    pose proof Kpos as KP. assert (HK : 0 < INR K) by (apply lt_0_INR; exact KP).
+    pose proof (pdf_nth_pos k Hk) as P. destruct (Ginv_range k (ynorm y) Hk (conj Hge Hle)) as [[Ga Gb] [G0 G1]].
+    set (xn := Ginv k (ynorm y)) in *. set (x := xn * (b_right bx - b_left bx) + b_left bx).
+    assert (Hx : b_left bx <= x <= b_right bx) by (unfold x; split; nra).
+    assert (Exn : xnorm x = xn) by (unfold xnorm, x; field; lra).
+    exists x, (- ln (INR K * nth k pdf 0) + ln (b_right bx - b_left bx) - ln (b_top bx - b_bottom bx)).
+    split; [exact E|]. split; [exact Hx|].
+    (* the bin of the pre-image: k, or the point is 1 *)
+    assert (HG : G xn = ynorm y /\ nth (bin_of xn) pdf 0 = nth k pdf 0).
+    { destruct (bin_of_spec xn (conj G0 G1)) as [Hb [[B1 B2] B3]].
+      assert (Exk : xn * INR K = INR k + (ynorm y - psum pdf k) / nth k pdf 0) by (unfold xn, Ginv; field; lra).
+      destruct Hlt as [Hlt|ElastK].
+      - (* strictly inside the output bin: the position is strictly below (k+1)/K, so its bin is k *)
+        assert (Hq : (ynorm y - psum pdf k) / nth k pdf 0 < 1).
+        { rewrite psum_S in Hlt by (rewrite pdf_length; exact Hk).
+          apply (Rmult_lt_reg_r (nth k pdf 0)); [exact P|]. unfold Rdiv. rewrite Rmult_assoc, Rinv_l by lra. lra. }
+        assert (Hq0 : 0 <= (ynorm y - psum pdf k) / nth k pdf 0) by (apply Rmult_le_pos; [lra | left; apply Rinv_0_lt_compat; exact P]).
+        assert (Eb : bin_of xn = k).
+        { destruct (lt_eq_lt_dec (bin_of xn) k) as [[L|Eq]|L]; [exfalso | exact Eq | exfalso].
+          - assert (INR (bin_of xn) + 1 <= INR k) by (rewrite <- S_INR; apply le_INR; lia). destruct B3 as [B3|B3]; [lra | lia].
+          - assert (INR k + 1 <= INR (bin_of xn)) by (rewrite <- S_INR; apply le_INR; lia). lra. }
+        split; [|rewrite Eb; reflexivity]. unfold G. cbv zeta. rewrite Eb, Exk. field. lra.
+      - (* the last bin *)
+        destruct (Rle_lt_or_eq_dec _ _ Hle) as [L|Eq].
+        + assert (Hq : (ynorm y - psum pdf k) / nth k pdf 0 < 1).
+          { rewrite psum_S in L by (rewrite pdf_length; exact Hk).
+            apply (Rmult_lt_reg_r (nth k pdf 0)); [exact P|]. unfold Rdiv. rewrite Rmult_assoc, Rinv_l by lra. lra. }
+          assert (Hq0 : 0 <= (ynorm y - psum pdf k) / nth k pdf 0) by (apply Rmult_le_pos; [lra | left; apply Rinv_0_lt_compat; exact P]).
+          assert (Eb : bin_of xn = k).
+          { destruct (lt_eq_lt_dec (bin_of xn) k) as [[L'|Eq]|L']; [exfalso | exact Eq | exfalso].
+            - assert (INR (bin_of xn) + 1 <= INR k) by (rewrite <- S_INR; apply le_INR; lia). destruct B3 as [B3|B3]; [lra | lia].
+            - assert (INR k + 1 <= INR (bin_of xn)) by (rewrite <- S_INR; apply le_INR; lia). lra. }
+          split; [|rewrite Eb; reflexivity]. unfold G. cbv zeta. rewrite Eb, Exk. field. lra.
+        + (* y is the top end: the pre-image is the right end, which the forward direction puts into the last bin *)
+          assert (Ey1 : ynorm y = 1) by (rewrite Eq, ElastK, <- pdf_length, psum_all; apply pdf_sum).
+          assert (Exn1 : xn = 1).
+          { unfold xn, Ginv. rewrite Eq. rewrite psum_S by (rewrite pdf_length; exact Hk).
+            replace (psum pdf k + nth k pdf 0 - psum pdf k) with (nth k pdf 0) by ring.
+            replace (INR K) with (INR (S k)) by (rewrite ElastK; reflexivity). rewrite S_INR.
+            assert (0 <= INR k) by apply pos_INR. field. split; lra. }
+          rewrite Exn1, G_1, Ey1. split; [reflexivity|].
+          destruct (bin_of_spec 1 ltac:(lra)) as [Hb1 [[C1 C2] C3]]. rewrite Rmult_1_l in C1, C2, C3.
+          assert (Eb : bin_of 1 = k).
+          { assert (S (bin_of 1) = K).
+            { destruct C3 as [C3|C3]; [|exact C3]. exfalso.
+              assert (INR (S (bin_of 1)) <= INR K) by (apply le_INR; lia). rewrite S_INR in H. lra. }
+            lia. }
+          rewrite Eb. reflexivity. }
+    destruct HG as [HGy Hp].
+    pose proof (linear_forward x Hx) as EF. cbv zeta in EF. rewrite Exn in EF.
+    unfold FL, FLlad. rewrite EF. rewrite HGy, Hp. split.
+    - unfold ynorm. field. lra.
+    - ring.
+  Qed.
+
+  (* inverse (forward x) = x: the forward direction is injective (strictly increasing), so the pre-image found above is x *)
+  Theorem linear_inverse_of_forward x : b_left bx <= x <= b_right bx ->
+    linear_spline Rops true bx u (FL x) = Ok (x, - FLlad x).
+  Proof.
+    intros Hx. destruct linear_whole as [Hacc [_ Hinc]].
+    destruct (Hacc x Hx) as [y [l [E [Hy _]]]]. assert (EFL : FL x = y) by (unfold FL; rewrite E; reflexivity).
+    rewrite EFL. destruct (linear_forward_of_inverse y Hy) as [x' [l' [E' [Hx' [Hf Hl]]]]].
+    assert (x' = x).
+    { destruct (Rtotal_order x' x) as [L|[Eq|L]]; [exfalso | exact Eq | exfalso].
+      - pose proof (Hinc x' x ltac:(lra) L ltac:(lra)). lra.
+      - pose proof (Hinc x x' ltac:(lra) L ltac:(lra)). lra. }
+    subst x'. rewrite E', Hl. reflexivity.
   Qed.
 End LinWhole.
